@@ -75,7 +75,7 @@
                                document ([doc_of_store s1 = doc_of_store s2]) are related by such
                                a renaming, hence [same_tree] -- for string facts that are
                                functions of the denoted attribute / value piece ([FactsBy])
-      C14_query_on_reparse     for an edited document [s1] of a reachable world outside [Known15],
+      C14_query_on_reparse     (stated in Properties/C14.v) for an edited document [s1] of a reachable world outside [Known15],
                                the document [d'] the parser returns for its print and ANY store
                                [s2] with the invariants that denotes [d']: every supported
                                expression has the same value on both tables, the value XPath 1.0
@@ -290,25 +290,8 @@ Theorem C15_same_doc_same_tree : forall (F1 F2 : sfacts) (merged : bool) (s1 s2 
   same_tree (xdoc_of_store F1 merged s1) (xdoc_of_store F2 merged s2).
 Proof. exact same_doc_same_tree. Qed.
 
-(** the second sentence of C14 with its last hypothesis discharged: [s1] an edited document of a
-    reachable world outside [Known15], [d'] the document the parser returns for its print, [s2] a
-    store with the invariants that denotes [d'] *)
-Theorem C14_query_on_reparse :
-  forall (F1 F2 : sfacts) fa fr (merged : bool) (init : world) (ops : list op) (k : N) (s1 s2 : store) (d' : document),
-  WGood init -> WInv2 init -> WLex15 init -> WPiFlag init ->
-  Forall op_facts_ok ops -> Forall op_facts_ok15 ops ->
-  doc_at (run init ops) k = Some s1 -> Known15 s1 = false ->
-  pipeline_parse (show_doc s1) = OOk ([], d') ->
-  TreeInv s2 -> OrderInv s2 -> Lex15 s2 -> PiFlagOk s2 -> doc_of_store s2 = d' ->
-  FactsBy fa fr F1 s1 -> FactsBy fa fr F2 s2 ->
-  forall (c1 c2 : ctx) (e : expr),
-    c_ns c1 = c_ns c2 -> get_position c1 = get_position c2 -> get_size c1 = get_size c2 ->
-    ns_lookup (c_ns c1) None = None -> supported (c_ns c1) e ->
-    value_abs (fst (query (xdoc_of_store F1 merged s1) e c1)) =
-    value_abs (fst (query (xdoc_of_store F2 merged s2) e c2)) /\
-    value_abs (fst (query (xdoc_of_store F1 merged s1) e c1)) =
-    spec_query (xdoc_of_store F1 merged s1) (c_ns c1) (get_position c1) (get_size c1) e.
-Proof. exact query_on_reparse. Qed.
+(** [C14_query_on_reparse] (Properties/C14.v, last section) composes this with
+    [C15_edited_roundtrip_reachable] and the second sentence of C14 *)
 
 (** the hypotheses are satisfiable: the edited store [rt_store] and a table [rp_store] of the fresh
     parse of its print, with other ids *)
@@ -332,4 +315,3 @@ Print Assumptions C15_piflag_reachable.
 Print Assumptions C15_piflag_checkable.
 Print Assumptions C15_iso_same_tree.
 Print Assumptions C15_same_doc_same_tree.
-Print Assumptions C14_query_on_reparse.
